@@ -490,7 +490,7 @@ def _readd(i, s, first, again):
 class C10(Prop):
     id = 'C10'
     rule = ('op histories (<=20 segments quick, <=45 thorough; a segment is one op or a 6-12 op macro shape; hypothesis-generated lists of [op, slot, side, k] over a pool of '
-            '<=4 socketpairs, both ends registrable, one owning source per descriptor) interpreted on three universes '
+            '<=4 socketpairs, both ends registrable, one owning source per descriptor plus ops addR2/addW2 by a second component, urgent (OOB) bytes as peer traffic) interpreted on three universes '
             '(Select, Poll, EPoll) and judged at every zero-time-out iteration against the kernel (select(2)/poll(2) asked '
             'directly); non-trivial = the history removes one role while the other stays, re-adds a descriptor after a '
             'discard, or opens a socket whose fd number belonged to an earlier registered descriptor, AND is polled '
